@@ -20,6 +20,7 @@ DECIDED = [
     "R-C19-PERIOD: the periodic branch returns anchor + period * ((now - anchor) // period + 1) in exact timedelta/int arithmetic (no float "
     "conversion), i.e. a whole number of periods after the time base with the strict '+ 1'",
     "R-C19-OVERDUE (clock form): all expiry tests read the clock the same way (sibling agreement); R-C19-PERIOD (whole durations): no duration is taken from timedelta.seconds/.microseconds without .days",
+    "R-C19-PERIOD (reuse): rounding lattice of C05 and first-run rule of C06 under this property; R-C19-OVERDUE (clock family)",
 ]
 NOT_DECIDED = ["the inequality now < next <= now + period as an arithmetic fact over runtime values (follows from the normal form by floor-division "
                "properties; the identity itself is not proven here)", "cron schedules (croniter)"]
